@@ -117,6 +117,7 @@ class Driver:
         info = {}
         try:
             if kind == 'prov':
+                info['n0'] = getattr(cl, 'num_provisioned_obs', None)
                 cl.provision_batch_resources(op[1], op[2])
             elif kind == 'rel':
                 cl.release_batch_resources(op[1])
@@ -212,6 +213,10 @@ class Driver:
                 self.unchanged(op, b, a, 'no machine available', raised)
                 return
             k = min(size, len(A))
+            n1 = getattr(self.cluster, 'num_provisioned_obs', None)
+            if k == 0 and n1 is not None and info.get('n0') is not None and n1 != info['n0']:
+                self.violate('C02', 'empty_reservation_counted', op='prov', before=info['n0'],
+                             after=n1)
             moved = A - set(a['available'])
             exp_idle = sorted(b['idle'].get(name, []) + sorted(moved))
             ok = (raised is None and len(moved) == k and set(a['available']) <= A
